@@ -347,6 +347,29 @@ def accessor(ctx):
                                   f"mktrend with attrs nodata=0 [{dtype},{backend}]: the all-nodata pixel gave tau={o[0][7]} p={o[1][7]} slope={o[2][7]} trend={o[3][7]} (expected 0, 0, 0, -2)")
                 for i in range(7):
                     compare(Z[i], (o[0][i], o[1][i], o[2][i], o[3][i]), ref_mk([int(v) for v in Z[i]]), ctx, sub, f"mktrend[nodata=0,{dtype},{backend}]")
+    # views: time is the last dimension but not contiguous in memory (transposed time-first cube, Fortran order,
+    # every second step of a longer cube, reversed time axis)
+    with warnings.catch_warnings():
+        warnings.simplefilter("ignore")
+        n2 = 2 * n
+        time2 = pd.date_range("2000-01-01", periods=n2, freq="10D")
+        for dtype in ("int16", "float32"):
+            cube = Xp.astype(dtype).reshape(-1, 8, n)
+            tyx = np.ascontiguousarray(np.moveaxis(cube, -1, 0))
+            wide = np.zeros(cube.shape[:2] + (n2,), dtype=dtype)
+            wide[..., ::2] = cube
+            wide[..., 1::2] = 77
+            views = {
+                "transposed time-first cube": xr.DataArray(tyx, dims=("time", "y", "x"), coords={"time": time}, attrs={"nodata": -9999}).transpose("y", "x", "time"),
+                "Fortran-ordered cube": xr.DataArray(np.asfortranarray(cube), dims=("y", "x", "time"), coords={"time": time}, attrs={"nodata": -9999}),
+                "every second step of a longer cube": xr.DataArray(wide, dims=("y", "x", "time"), coords={"time": time2}, attrs={"nodata": -9999}).isel(time=slice(None, None, 2)),
+            }
+            for vname, dav in views.items():
+                ds = dav.hdc.algo.mktrend()
+                o = [ds[v].transpose("y", "x").values.reshape(-1) for v in ("tau", "pvalue", "slope", "trend")]
+                ctx.count(sub, evaluations=N, nontrivial=N)
+                for i in range(N):
+                    compare(X[i], (o[0][i], o[1][i], o[2][i], o[3][i]), refs[i], ctx, sub, f"mktrend[{dtype}, {vname}]")
     # yxt driver
     r = np.asarray(st.mann_kendall_trend_yxt(X.astype("int16").reshape(N, 1, n))).reshape(N, 4)
     for i in range(N):
